@@ -680,7 +680,8 @@ func isNumberTokenType(t ytoken.Type) bool {
 // shouldQuote indicates that a string must be double quoted to be
 // decoded back unharmed: it may be a YAML 1.1 legacy value, a scalar
 // that YAML decodes as another type such as a number or an infinity,
-// a broken YAML 1.1 octal that other decoders read as a float, or
+// a broken YAML 1.1 octal that other decoders read as a float,
+// start with the document end marker, or
 // contain characters that a plain scalar cannot carry, such as tabs
 // or unprintable characters.
 func shouldQuote(str string) bool {
@@ -691,6 +692,12 @@ func shouldQuote(str string) bool {
 	// one of these bytes; skip the regexp engine otherwise.
 	if strings.IndexByte("-+0123456789:. \t", str[0]) >= 0 &&
 		(useQuote().MatchString(str) || rxAnyOctalYaml11().MatchString(str)) {
+		return true
+	}
+	// A plain scalar starting with the document end marker
+	// ends the document when it is placed at the start of a line,
+	// such as a top-level mapping key or a scalar document.
+	if strings.HasPrefix(str, "...") {
 		return true
 	}
 	return decodesAsNonString(str) || strings.ContainsRune(str, '\t') || yamlUnprintable(str)
